@@ -1,4 +1,6 @@
 import P2.Proofs.LangOpt
+import P2.Proofs.LangOptFree
+import P2.Proofs.LangOptSim
 import P2.Props.C02
 /-! # C02 on the value language — `P2.Lang.Opt.optimize` against the reference semantics
 
@@ -177,6 +179,146 @@ theorem if_rule_sound (sc : Scope) (b : Bool) (t e : AST) (env : Env) (n : Nat) 
 theorem if_rule_nonbool (sc : Scope) (i : Int) (t e : AST) :
     rule S M T cfg sc (.ifE (.const (.int i)) t e) = .ok (.ifE (.const (.int i)) t e) := rfl
 
+/-! ## the whole optimizer on closure-free programs -/
+
+/-- **C02 for closure-free programs.** `closureFree S argNames a` (decidable, `Proofs/LangOptFree.lean`):
+no closure literal occurs in `a` — no lambda, no `func` — and every identifier is bound by an
+enclosing `let`, is one of `argNames`, or (in call position) names a static function. Under the
+configuration `FreeCfg` (the two open findings `intAndOr`, `regroup` off, repair 89b886b on, rule (f)
+off — in a closure-free program it has no closure literal to apply to), whatever the original program
+answers at some fuel — a value, an error, a panic, `unmodelled`; anything but running out of fuel —
+the optimized program answers EXACTLY the same, in the same environment, at every fuel from some
+`m0` on. The arguments are arbitrary values (closures included). -/
+theorem optimize_preserves_eval_closureFree (hcfg : FreeCfg cfg) (argNames : List String) (a a' : AST)
+    (args : List Val) (n : Nat) (r : R Val)
+    (hopt : optimize S M T cfg argNames a = .ok a')
+    (hcf : closureFree S argNames a = true)
+    (hev : eval S M n a (bindParams argNames args).reverse = r) (hr : r ≠ .fuel) :
+    ∃ m0, ∀ m, m0 ≤ m → eval S M m a' (bindParams argNames args).reverse = r := by
+  unfold optimize at hopt
+  obtain ⟨_, hg, hopt⟩ := ebind_ok hopt
+  exact ((simB hcfg n).expr true _ argNames a a' _ _ hopt hcf (EnvB.top argNames args hg)).eq_of hev hr
+
+/-- the same for the top-level run (`runReference`: a panic that reaches the top is an error) -/
+theorem optimize_preserves_runReference_closureFree (hcfg : FreeCfg cfg) (argNames : List String) (a a' : AST)
+    (args : List Val) (n : Nat) (r : R Val)
+    (hopt : optimize S M T cfg argNames a = .ok a')
+    (hcf : closureFree S argNames a = true)
+    (hev : runReference S M n a argNames args = r) (hr : r ≠ .fuel) :
+    ∃ m0, ∀ m, m0 ≤ m → runReference S M m a' argNames args = r := by
+  have hne : eval S M n a (bindParams argNames args).reverse ≠ .fuel := by
+    intro hf
+    simp only [runReference, hf] at hev
+    exact hr hev.symm
+  obtain ⟨m0, h⟩ := optimize_preserves_eval_closureFree hcfg argNames a a' args n _ hopt hcf rfl hne
+  refine ⟨m0, fun m hm => ?_⟩
+  unfold runReference at hev ⊢
+  rw [h m hm]
+  exact hev
+
+/-! ## the whole optimizer, closures included (everything but rule (f)) -/
+
+/-- the tables and the configuration the value relation `O.VRel` depends on -/
+abbrev octx (S : Statics) (M : Methods) (T : Tables) (cfg : Cfg) : O.Ctx := ⟨S, M, T, cfg⟩
+
+/-- **C02 on the value language, `…_partial`: all of `optimize` except rule (f).**
+
+Hypotheses. `FreeCfg cfg`: the open findings `intAndOr` and `regroup` are off, repair 89b886b is on,
+and rule (f) — closure literals without outer identifiers as constants — is off
+(`cfg.foldClosures = false`); `optimize` succeeds (`Except.ok`: it met nothing it does not model);
+the program is well-scoped (`O.wscoped`, decidable, `Proofs/LangORel.lean`: identifiers are bound, the
+declared outer identifiers of closure literals are in scope, a recursive function has a name that is
+not among its outer identifiers — true of every tree the parser produces for a program that
+compiles); the two argument lists are related (`O.VsRel`: equal up to closures, which correspond
+when the body of the right one is the optimized body of the left one, see `O.VRel.clos`).
+
+Conclusion. Whatever the original program answers at fuel `n`, unless it runs out of fuel, the
+optimized program answers one and the same outcome `r'` at every fuel from some `m0` on, and `r'` is
+related to `r` (`O.RRel`): a value `.ok v` to `.ok v'` with `O.VRel v v'`; `.err` to `.err`; `.panic`
+to `.panic`; `.unmodelled` to `.unmodelled`.
+
+MISSING for the full statement (`foldClosures = true`, the HEAD default): closure constants — a
+closure literal without outer identifiers is inlined at its uses, calls of constant closures with
+constant arguments and method calls on maps holding them are folded. That needs (1) the value
+relation to treat a closure constant as closed (its body, as compiled by `gen` with no context, does
+not depend on the capturing environment: a lemma `gen … = some _ → wscoped …` and a liveness-restricted
+environment relation), and (2) folding steps whose result is related, not equal, to what the node
+evaluates to. -/
+theorem optimize_preserves_eval_partial (hcfg : FreeCfg cfg) (argNames : List String) (a a' : AST)
+    (args args' : List Val) (n : Nat) (r : R Val)
+    (hopt : optimize S M T cfg argNames a = .ok a')
+    (hws : O.wscoped S argNames a = true)
+    (hargs : O.VsRel (octx S M T cfg) args args')
+    (hev : eval S M n a (bindParams argNames args).reverse = r) (hr : r ≠ .fuel) :
+    ∃ r', O.RRel (O.VRel (octx S M T cfg)) r r' ∧
+      ∃ m0, ∀ m, m0 ≤ m → eval S M m a' (bindParams argNames args').reverse = r' := by
+  unfold optimize at hopt
+  obtain ⟨_, hg, hopt⟩ := ebind_ok hopt
+  exact ((O.simC (S := octx S M T cfg) hcfg n).expr true _ argNames a a' _ _ hopt hws
+    (O.EnvC.top argNames hargs hg)).out hev hr
+
+/-- values: the optimized program evaluates to a related value -/
+theorem optimize_preserves_ok_partial (hcfg : FreeCfg cfg) (argNames : List String) (a a' : AST)
+    (args args' : List Val) (n : Nat) (v : Val)
+    (hopt : optimize S M T cfg argNames a = .ok a') (hws : O.wscoped S argNames a = true)
+    (hargs : O.VsRel (octx S M T cfg) args args')
+    (hev : eval S M n a (bindParams argNames args).reverse = .ok v) :
+    ∃ v', O.VRel (octx S M T cfg) v v' ∧
+      ∃ m0, ∀ m, m0 ≤ m → eval S M m a' (bindParams argNames args').reverse = .ok v' := by
+  obtain ⟨r', hr, h⟩ := optimize_preserves_eval_partial hcfg argNames a a' args args' n _ hopt hws hargs hev (by simp)
+  rcases hr.cases (by simp) with ⟨a1, b1, e1, rfl, hab⟩ | ⟨e1, _⟩ | ⟨e1, _⟩ | ⟨e1, _⟩
+  · cases e1; exact ⟨b1, hab, h⟩
+  · cases e1
+  · cases e1
+  · cases e1
+
+/-- errors stay errors -/
+theorem optimize_preserves_err_partial (hcfg : FreeCfg cfg) (argNames : List String) (a a' : AST)
+    (args args' : List Val) (n : Nat)
+    (hopt : optimize S M T cfg argNames a = .ok a') (hws : O.wscoped S argNames a = true)
+    (hargs : O.VsRel (octx S M T cfg) args args')
+    (hev : eval S M n a (bindParams argNames args).reverse = .err) :
+    ∃ m0, ∀ m, m0 ≤ m → eval S M m a' (bindParams argNames args').reverse = .err := by
+  obtain ⟨r', hr, h⟩ := optimize_preserves_eval_partial hcfg argNames a a' args args' n _ hopt hws hargs hev (by simp)
+  rcases hr.cases (by simp) with ⟨a1, b1, e1, _, _⟩ | ⟨_, rfl⟩ | ⟨e1, _⟩ | ⟨e1, _⟩
+  · cases e1
+  · exact h
+  · cases e1
+  · cases e1
+
+/-- … and only errors become errors: if the optimized program fails with an error and the original
+program has a definite outcome, that outcome is an error (`.err ↔ .err`; likewise a panic of the
+original program is a panic of the optimized one and `unmodelled` stays `unmodelled`, by
+`optimize_preserves_eval_partial`) -/
+theorem optimize_reflects_err_partial (hcfg : FreeCfg cfg) (argNames : List String) (a a' : AST)
+    (args args' : List Val) (n m : Nat) (r : R Val)
+    (hopt : optimize S M T cfg argNames a = .ok a') (hws : O.wscoped S argNames a = true)
+    (hargs : O.VsRel (octx S M T cfg) args args')
+    (hev' : eval S M m a' (bindParams argNames args').reverse = .err)
+    (hev : eval S M n a (bindParams argNames args).reverse = r) (hr : r ≠ .fuel) : r = .err := by
+  obtain ⟨r', hrel, m0, h⟩ := optimize_preserves_eval_partial hcfg argNames a a' args args' n _ hopt hws hargs hev hr
+  have h1 := h (max m0 m) (by omega)
+  have h2 := eval_fuel_mono S M hev' (by simp) (show m ≤ max m0 m by omega)
+  rw [h2] at h1
+  subst h1
+  rcases hrel.cases hr with ⟨a1, b1, _, e1, _⟩ | ⟨e1, _⟩ | ⟨_, e1⟩ | ⟨_, e1⟩
+  · cases e1
+  · exact e1
+  · cases e1
+  · cases e1
+
+/-- closure-free arguments and a closure-free result: the SAME value -/
+theorem optimize_preserves_value_partial (hcfg : FreeCfg cfg) (argNames : List String) (a a' : AST)
+    (args : List Val) (n : Nat) (v : Val)
+    (hopt : optimize S M T cfg argNames a = .ok a') (hws : O.wscoped S argNames a = true)
+    (hargs : ClosFreeVs args) (hv : ClosFree v)
+    (hev : eval S M n a (bindParams argNames args).reverse = .ok v) :
+    ∃ m0, ∀ m, m0 ≤ m → eval S M m a' (bindParams argNames args).reverse = .ok v := by
+  obtain ⟨v', hvv, h⟩ := optimize_preserves_ok_partial hcfg argNames a a' args args n v hopt hws
+    (O.VsRel.refl_of_closFree hargs) hev
+  rw [← O.VRel.eq_of_closFree hv hvv] at h
+  exact h
+
 /-! ## non-vacuity and pinned witnesses -/
 
 def M0 : Methods := fun ty name => (methodSig ty name).map (fun k => if k < 0 then k else k + 1)
@@ -216,6 +358,54 @@ example : optIs sound ["a"] prog1 (fun a' => match a' with
 /-- … and both programs evaluate to 1 + 5·7 -/
 example : outInt (runReference staticSig M0 40 prog1 ["a"] [.int 7]) = some 36 := by decide
 example : runOpt sound ["a"] prog1 [.int 7] = some 36 := by decide
+
+/-- the configuration of `optimize_preserves_eval_closureFree` -/
+def free : Cfg := { intAndOr := false, regroup := false, foldClosures := false, fuel := 30 }
+theorem free_ok : FreeCfg free := ⟨rfl, rfl, rfl, rfl⟩
+
+/-- `1 + 5 * a` -/
+def prog1Opt : AST := .binop "+" (.const (.int 1)) (.binop "*" (.const (.int 5)) (.ident "a"))
+
+/-- non-vacuity of `optimize_preserves_eval_closureFree`: `prog1` is closure-free, the optimizer
+really changes it (let inlined, two foldings), and the theorem yields the value of the optimized
+program at every large fuel -/
+example : ∃ m0, ∀ m, m0 ≤ m →
+    outInt (eval staticSig M0 m prog1Opt (bindParams ["a"] [.int 7]).reverse) = some 36 := by
+  have hopt : optimize staticSig M0 T0 free ["a"] prog1 = .ok prog1Opt := by rfl
+  have hcf : closureFree staticSig ["a"] prog1 = true := by decide
+  have h36 : outInt (eval staticSig M0 40 prog1 (bindParams ["a"] [.int 7]).reverse) = some 36 := by decide
+  obtain ⟨m0, h⟩ := optimize_preserves_eval_closureFree free_ok ["a"] prog1 prog1Opt [.int 7] 40 _ hopt hcf rfl
+    (by intro hf; rw [hf] at h36; cases h36)
+  exact ⟨m0, fun m hm => by rw [h m hm]; exact h36⟩
+
+/-- `let k = 2 + 3; func f(x) x * k + (1 + 1); f(a)` as the parser produces it without an optimizer
+(`k` is a variable, hence an outer identifier of `f`) -/
+def prog3 : AST :=
+  .letE "k" (.binop "+" (.const (.int 2)) (.const (.int 3)))
+    (.letE "f" (.clos ["x"] (.binop "+" (.binop "*" (.ident "x") (.ident "k"))
+        (.binop "+" (.const (.int 1)) (.const (.int 1)))) ["k"] false "f")
+      (.call (.ident "f") [.ident "a"]))
+/-- `func f(x) x * 5 + 2; f(a)`: the constant is inlined INTO the closure body, the body is folded,
+`k` is no longer an outer identifier -/
+def prog3Opt : AST :=
+  .letE "f" (.clos ["x"] (.binop "+" (.binop "*" (.ident "x") (.const (.int 5))) (.const (.int 2))) [] false "f")
+    (.call (.ident "f") [.ident "a"])
+
+/-- non-vacuity of `optimize_preserves_value_partial` on a program whose closure body changes -/
+example : ∃ m0, ∀ m, m0 ≤ m →
+    eval staticSig M0 m prog3Opt (bindParams ["a"] [.int 7]).reverse = .ok (.int 37) := by
+  have hopt : optimize staticSig M0 T0 free ["a"] prog3 = .ok prog3Opt := by rfl
+  have hws : O.wscoped staticSig ["a"] prog3 = true := by decide
+  have h37 : outInt (eval staticSig M0 40 prog3 (bindParams ["a"] [.int 7]).reverse) = some 37 := by decide
+  have hev : eval staticSig M0 40 prog3 (bindParams ["a"] [.int 7]).reverse = .ok (.int 37) := by
+    generalize eval staticSig M0 40 prog3 (bindParams ["a"] [.int 7]).reverse = r at h37
+    cases r with
+    | ok v =>
+      cases v <;> simp [outInt] at h37
+      rw [h37]
+    | _ => simp [outInt] at h37
+  exact optimize_preserves_value_partial free_ok ["a"] prog3 prog3Opt [.int 7] 40 (.int 37) hopt hws
+    (.cons (.int 7) .nil) (.int 37) hev
 
 /-- the hypotheses of `fold_binop_sound_partial` hold on `2 + 3 ↦ 5` -/
 example : rule staticSig M0 T0 sound [("a", none)] (.binop "+" (.const (.int 2)) (.const (.int 3)))
